@@ -8,8 +8,7 @@ test.  Output: coq/Gen/Tload.v (regenerated on every check).
   binary64 above it.  The midpoint is computed exactly here; which side the tie falls on is *observed* by
   handing CPython the exact decimal expansion of the midpoint.
 - record_parts: the dataset parts named records_* (Kapture.__init__), sensor_types: SensorType names.
-- loadable_types / loadable_tested: the parts skip_list can name (KAPTURE_LOADABLE_TYPES) and the classes the loader
-  source guards with `in kapture_loadable_data`."""
+- loadable_types: the parts skip_list can name (KAPTURE_LOADABLE_TYPES)."""
 import inspect
 import math
 from fractions import Fraction
@@ -59,16 +58,21 @@ def emit():
     L.append('(* names of kapture.SensorType *)')
     L.append('Definition sensor_types : list string := ' +
              kv.clist(kv.cstr(t.name) for t in kapture.SensorType) + '.')
-    # the parts kapture_from_dir can be told to skip: KAPTURE_LOADABLE_TYPES (a set: emitted sorted by name), and the
-    # classes the body of the loader (with its three helpers) actually tests with `kapture.X in kapture_loadable_data`
-    import re
-    L.append('(* class names of kapture.io.csv.KAPTURE_LOADABLE_TYPES, sorted *)')
-    L.append('Definition loadable_types : list string := ' +
-             kv.clist(kv.cstr(n) for n in sorted(c.__name__ for c in kcsv.KAPTURE_LOADABLE_TYPES)) + '.')
-    src = ''.join(inspect.getsource(f) for f in (kcsv.kapture_from_dir, kcsv._load_all_records,
-                                                 kcsv._load_features_and_desc_and_matches,
-                                                 kcsv._load_points3d_and_observations))
-    tested = sorted(set(re.findall(r'kapture\.(\w+)\s+in\s+kapture_loadable_data', src)))
-    L.append('(* classes X for which the loader source tests `kapture.X in kapture_loadable_data`, sorted *)')
-    L.append('Definition loadable_tested : list string := ' + kv.clist(kv.cstr(n) for n in tested) + '.')
+    # the parts kapture_from_dir can be told to skip: KAPTURE_LOADABLE_TYPES (any iterable of classes; emitted sorted by
+    # name); when that constant is not there, the classes named by the annotation of the skip_list parameter + Sensors
+    types = getattr(kcsv, 'KAPTURE_LOADABLE_TYPES', None)
+    if types is not None:
+        names = sorted(c.__name__ for c in types)
+    else:
+        import typing
+        ann = typing.get_type_hints(kcsv.kapture_from_dir)['skip_list']
+
+        def leaves(t):
+            args = typing.get_args(t)
+            if not args:
+                return [t] if inspect.isclass(t) else []
+            return [x for a in args for x in leaves(a)]
+        names = sorted({c.__name__ for c in leaves(ann)} | {'Sensors'})
+    L.append('(* class names of the loadable types of kapture.io.csv (the parts skip_list can name, and Sensors), sorted *)')
+    L.append('Definition loadable_types : list string := ' + kv.clist(kv.cstr(n) for n in names) + '.')
     return L
